@@ -183,6 +183,7 @@ int main(int argc, char** argv)
             if (!strcmp(REGISTRY[i].name, type)) { fn = REGISTRY[i].fn; break; }
         if (!fn) { printf("NOTYPE %s\n", type); fflush(stdout); continue; }
         printf("BEGIN %s\n", id);
+        fprintf(stderr, "BEGIN %s\n", id);   // recoverable sanitizer reports are attributed through this marker
         fflush(stdout);
         fn(id, op, order, from_hex(hex));
     }
